@@ -23,21 +23,37 @@ fn twice(v: f64) -> Option<i64> {
     int_exact(v * 2.0)
 }
 
+/// (row, column) positions, 0-based, whose entry is to be fed as NEGATIVE zero where the
+/// recorded (doubled) entry is 0
+type Nz = [(usize, usize)];
+
 macro_rules! encode_impl {
-    ($name:ident, $t:ty, $ty:expr) => {
-        fn $name(run: i64, x2: &M2, t2: &M2, cats: &[usize], expect2: Option<&Value>) -> Value {
-            let to_m = |m2: &M2| -> DenseMatrix<$t> {
-                let rows: Vec<Vec<$t>> = m2
+    ($name:ident, $t:ty, $ty:expr, $mat:ty, $mk:expr) => {
+        fn $name(run: i64, x2: &M2, t2: &M2, nz: &Nz, cats: &[usize], expect2: Option<&Value>) -> Value {
+            let to_m = |m2: &M2| -> $mat {
+                let mut rows: Vec<Vec<$t>> = m2
                     .iter()
                     .map(|r| r.iter().map(|&v| (v as f64 / 2.0) as $t).collect())
                     .collect();
-                DenseMatrix::from_2d_vec(&rows)
+                for &(r, c) in nz.iter() {
+                    if r < m2.len() && c < m2[r].len() && m2[r][c] == 0 {
+                        rows[r][c] = -0.0;
+                    }
+                }
+                $mk(&rows)
             };
             let x = to_m(x2);
             let t = to_m(t2);
+            // what was actually fed as -0.0 in the transformed matrix: [row (1-based), column]
+            let tnz: Vec<(usize, usize)> = nz
+                .iter()
+                .filter(|&&(r, c)| r < t2.len() && c < t2[r].len() && t2[r][c] == 0)
+                .map(|&(r, c)| (r + 1, c))
+                .collect();
             let fitted = guard(|| OneHotEncoder::fit(&x, OneHotEncoderParams::from_cat_idx(cats)));
             let mut status = "none";
             let mut out2: M2 = Vec::new();
+            let mut outnz: Vec<(usize, usize)> = Vec::new();
             let mut exact = true;
             let fit = match &fitted {
                 Ok(Ok(_)) => "ok",
@@ -48,11 +64,15 @@ macro_rules! encode_impl {
                 match guard(|| enc.transform(&t)) {
                     Ok(Ok(o)) => {
                         status = "ok";
-                        let (r, c) = o.shape();
+                        let (r, c) = BaseMatrix::shape(&o);
                         for i in 0..r {
                             let mut row = Vec::with_capacity(c);
                             for j in 0..c {
-                                match twice(o.get(i, j) as f64) {
+                                let v = BaseMatrix::get(&o, i, j) as f64;
+                                if v == 0.0 && v.is_sign_negative() {
+                                    outnz.push((i + 1, j)); // the sign bit of a zero is observable
+                                }
+                                match twice(v) {
                                     Some(v) => row.push(v),
                                     None => {
                                         exact = false;
@@ -68,20 +88,33 @@ macro_rules! encode_impl {
                 }
             }
             json!({"run": run, "ev": "Encode", "ty": $ty, "X2": x2, "T2": t2, "cats": cats,
+                   "Tnz": tnz, "outnz": outnz,
                    "fit": fit, "status": status, "out2": out2, "outExact": exact,
                    "hasExpect": expect2.is_some(),
                    "expect2": expect2.cloned().unwrap_or_else(|| json!([]))})
         }
     };
 }
-encode_impl!(encode_f64, f64, "f64");
-encode_impl!(encode_f32, f32, "f32");
+encode_impl!(encode_f64, f64, "f64", DenseMatrix<f64>, |rows: &Vec<Vec<f64>>| DenseMatrix::from_2d_vec(rows));
+encode_impl!(encode_f32, f32, "f32", DenseMatrix<f32>, |rows: &Vec<Vec<f32>>| DenseMatrix::from_2d_vec(rows));
+// ndarray back end, column-major (Fortran) layout: memory order differs from logical order
+encode_impl!(encode_nd64, f64, "nd64", ndarray::Array2<f64>, |rows: &Vec<Vec<f64>>| {
+    use ndarray::ShapeBuilder;
+    let (n, p) = (rows.len(), rows[0].len());
+    let mut colmajor = Vec::with_capacity(n * p);
+    for j in 0..p {
+        for row in rows.iter() {
+            colmajor.push(row[j]);
+        }
+    }
+    ndarray::Array2::from_shape_vec((n, p).f(), colmajor).unwrap()
+});
 
-fn encode(ty: usize, run: i64, x2: &M2, t2: &M2, cats: &[usize], e: Option<&Value>) -> Value {
-    if ty == 0 {
-        encode_f64(run, x2, t2, cats, e)
-    } else {
-        encode_f32(run, x2, t2, cats, e)
+fn encode(ty: usize, run: i64, x2: &M2, t2: &M2, nz: &Nz, cats: &[usize], e: Option<&Value>) -> Value {
+    match ty {
+        0 => encode_f64(run, x2, t2, nz, cats, e),
+        1 => encode_f32(run, x2, t2, nz, cats, e),
+        _ => encode_nd64(run, x2, t2, nz, cats, e),
     }
 }
 
@@ -214,9 +247,11 @@ fn as_iv(v: &Value) -> Vec<i64> {
 }
 
 /// random matrix layout: returns (X2, categorical indices in the order they are passed)
-fn random_layout<R: Rng>(r: &mut R) -> (M2, Vec<usize>) {
-    let n = r.gen_range(1..=40usize);
-    let p = r.gen_range(1..=10usize);
+/// also returns the positions to be fed as -0.0 (zeros of plain columns and code 0 of
+/// categorical ones, each with probability 1/2)
+fn random_layout<R: Rng>(r: &mut R, nfix: Option<usize>, pmax: usize) -> (M2, Vec<usize>, Vec<(usize, usize)>) {
+    let n = nfix.unwrap_or_else(|| r.gen_range(1..=40usize));
+    let p = r.gen_range(1..=pmax);
     let mode = r.gen_range(0..12);
     let mut cats: Vec<usize> = match mode {
         0 => vec![],
@@ -262,11 +297,20 @@ fn random_layout<R: Rng>(r: &mut R) -> (M2, Vec<usize>) {
             }
         } else {
             for row in x2.iter_mut() {
-                row[j] = r.gen_range(-200..=200i64); // multiples of 1/2 in [-100, 100]
+                // multiples of 1/2 in [-100, 100]; zeros are over-represented (their sign matters)
+                row[j] = if r.gen_bool(0.08) { 0 } else { r.gen_range(-200..=200i64) };
             }
         }
     }
-    (x2, cats)
+    let mut nz = Vec::new();
+    for (i, row) in x2.iter().enumerate() {
+        for (j, &v) in row.iter().enumerate() {
+            if v == 0 && r.gen_bool(0.5) {
+                nz.push((i, j));
+            }
+        }
+    }
+    (x2, cats, nz)
 }
 
 fn main() {
@@ -289,7 +333,7 @@ fn main() {
                         let exp = if c["fit"] == "ok" { Some(&c["expect2"]) } else { None };
                         for ty in 0..2 {
                             run += 1;
-                            out.emit(encode(ty, run, &x2, &x2, &cats, exp));
+                            out.emit(encode(ty, run, &x2, &x2, &[], &cats, exp));
                         }
                     }
                     "mapper" => {
@@ -317,13 +361,18 @@ fn main() {
             for c in cases.iter() {
                 let ty = match c["ty"].as_str().unwrap_or("") {
                     "f64" | "u16" => 0,
+                    "nd64" => 2,
                     _ => 1,
                 };
                 run = c["run"].as_i64().unwrap_or(0);
                 match c["ev"].as_str().unwrap_or("") {
                     "Encode" => {
                         let cats: Vec<usize> = as_iv(&c["cats"]).iter().map(|&v| v as usize).collect();
-                        out.emit(encode(ty, run, &as_m2(&c["X2"]), &as_m2(&c["T2"]), &cats, None));
+                        let nz: Vec<(usize, usize)> = c["Tnz"]
+                            .as_array()
+                            .map(|v| v.iter().map(|p| (p[0].as_u64().unwrap() as usize - 1, p[1].as_u64().unwrap() as usize)).collect())
+                            .unwrap_or_default();
+                        out.emit(encode(ty, run, &as_m2(&c["X2"]), &as_m2(&c["T2"]), &nz, &cats, None));
                     }
                     "Mapper" => {
                         let ctor = c["ctor"].as_str().unwrap().to_string();
@@ -344,10 +393,10 @@ fn main() {
             let mut r = rng(18);
             let cnt = if th { 12000 } else { 1500 };
             for i in 0..cnt {
-                let (x2, cats) = random_layout(&mut r);
-                let ty = i % 2;
+                let (x2, cats, nz) = random_layout(&mut r, None, 10);
+                let ty = if i % 7 == 6 { 2 } else { i % 2 };   // 2 = ndarray, column-major
                 run += 1;
-                out.emit(encode(ty, run, &x2, &x2, &cats, None));
+                out.emit(encode(ty, run, &x2, &x2, &nz, &cats, None));
                 if cats.is_empty() {
                     continue;
                 }
@@ -360,7 +409,7 @@ fn main() {
                         let row = r.gen_range(0..n);
                         b[row][j] += 1;
                         run += 1;
-                        out.emit(encode(ty, run, &b, &b, &cats, None));
+                        out.emit(encode(ty, run, &b, &b, &nz, &cats, None));
                     }
                     1 | 2 => {
                         // transform a matrix holding a code that fit has not seen
@@ -374,7 +423,7 @@ fn main() {
                         }
                         t2[row][j] = c;
                         run += 1;
-                        out.emit(encode(ty, run, &x2, &t2, &cats, None));
+                        out.emit(encode(ty, run, &x2, &t2, &nz, &cats, None));
                     }
                     3 => {
                         // transform other rows made of seen values only (statement silent)
@@ -382,9 +431,44 @@ fn main() {
                             .map(|_| x2[r.gen_range(0..n)].clone())
                             .collect();
                         run += 1;
-                        out.emit(encode(ty, run, &x2, &t2, &cats, None));
+                        out.emit(encode(ty, run, &x2, &t2, &nz, &cats, None));
                     }
                     _ => {}
+                }
+            }
+            // ROW-COUNT ladder ("for every matrix"): row counts around the block sizes at which a
+            // chunked implementation changes regime.  Few columns, every categorical column with
+            // >= 2 categories in random order, so that row r and row r - 64 (r - 128, ...) differ;
+            // then an unseen value placed in the LAST row, and a non-integer value in the last row.
+            let ladder: &[usize] = if th { &[63, 64, 65, 127, 128, 129, 200, 256, 257, 513, 1025] } else { &[63, 64, 65, 128, 129, 200, 257] };
+            let reps = if th { 6 } else { 3 };
+            for &n in ladder.iter() {
+                for rep in 0..reps {
+                    let (x2, cats, nz) = loop {
+                        let (x2, cats, nz) = random_layout(&mut r, Some(n), 4);
+                        if !cats.is_empty() {
+                            break (x2, cats, nz);
+                        }
+                    };
+                    let ty = [0, 1, 2][rep % 3];
+                    run += 1;
+                    out.emit(encode(ty, run, &x2, &x2, &nz, &cats, None));
+                    let j = cats[r.gen_range(0..cats.len())];
+                    let seen: Vec<i64> = x2.iter().map(|rw| rw[j]).collect();
+                    let mut c = 2 * r.gen_range(0..=65535i64);
+                    while seen.contains(&c) {
+                        c = 2 * r.gen_range(0..=65535i64);
+                    }
+                    let mut t2 = x2.clone();
+                    t2[n - 1][j] = c;
+                    run += 1;
+                    out.emit(encode(ty, run, &x2, &t2, &nz, &cats, None));
+                    if rep == 0 {
+                        let mut b = x2.clone();
+                        b[n - 1][j] += 1;
+                        run += 1;
+                        out.emit(encode(ty, run, &b, &b, &nz, &cats, None));
+                    }
                 }
             }
             let n = out.finish();
